@@ -2,7 +2,7 @@
    history through the real watchers + converter and recorded, after every reconciliation,
    the hosts (paths with the servers they reach, certificate) of the haproxy model. *)
 From Coq Require Export List String ZArith NArith Bool.
-From HI Require Export Model.Tracker Model.Conv.
+From HI Require Export Model.Tracker Model.Conv Model.ConvDB.
 Export ListNotations.
 Open Scope string_scope.
 
@@ -90,12 +90,35 @@ Fixpoint run_tops (T : ctracker) (l : list top) : bool :=
 
 Definition tcase_ok (c : tcase) : bool := run_tops [] (tops c).
 
-Inductive acase := CH (c : ccase) | CT (c : tcase).
+(* ---- histories with spec.defaultBackend, against Model/ConvDB.v (same observation) ---- *)
+Inductive dstep :=
+| DFull (w : dworld)
+| DPartial (w : dworld) (b : dbatch).
+
+Record dcase := { did : N; dsteps : list (dstep * list (string * hobs)) }.
+
+Fixpoint run_dsteps (x : st) (l : list (dstep * list (string * hobs))) : bool :=
+  match l with
+  | [] => true
+  | (s, exp) :: r =>
+      match (match s with
+             | DFull w => Some (sync_full_d w)
+             | DPartial w b => sync_partial_d w x b
+             end) with
+      | None => false
+      | Some x' => step_ok x' exp && run_dsteps x' r
+      end
+  end.
+
+Definition dcase_ok (c : dcase) : bool := run_dsteps (empty_state, []) (dsteps c).
+
+Inductive acase := CH (c : ccase) | CT (c : tcase) | CD (c : dcase).
 
 Definition mismatches (cs : list acase) : list N :=
   flat_map (fun a => match a with
                      | CH c => if ccase_ok c then [] else [cid c]
                      | CT c => if tcase_ok c then [] else [tid c]
+                     | CD c => if dcase_ok c then [] else [did c]
                      end) cs.
 
 (* diagnostics: index of the first failing step and the hosts that differ there *)
@@ -111,5 +134,20 @@ Fixpoint first_bad (n : nat) (x : st) (l : list (cstep * list (string * hobs))) 
       | Some x' =>
           let bad := map fst (filter (fun e => negb (hobs_eqb (obs_host (fst x') (fst e)) (snd e))) exp) in
           match bad with [] => first_bad (S n) x' r | _ => Some (n, bad) end
+      end
+  end.
+
+Fixpoint first_bad_d (n : nat) (x : st) (l : list (dstep * list (string * hobs))) : option (nat * list string) :=
+  match l with
+  | [] => None
+  | (s, exp) :: r =>
+      match (match s with
+             | DFull w => Some (sync_full_d w)
+             | DPartial w b => sync_partial_d w x b
+             end) with
+      | None => Some (n, ["<query ran out of fuel>"])
+      | Some x' =>
+          let bad := map fst (filter (fun e => negb (hobs_eqb (obs_host (fst x') (fst e)) (snd e))) exp) in
+          match bad with [] => first_bad_d (S n) x' r | _ => Some (n, bad) end
       end
   end.
